@@ -53,6 +53,10 @@ def main():
                 res = exec_case(mod(job["prop"]), job["case"])
             elif cmd == "shrink":
                 res = shrink(mod(job["prop"]), job["case"], job["cls"], job.get("budget", 400))
+            elif cmd == "verify":
+                from dst.props import c07
+
+                res = c07.verify_items(job)
             elif cmd == "match":
                 m = mod(job["prop"])
                 res = {"matches": match_findings(m, job["case"], job["result"], job["findings"])}
@@ -64,6 +68,12 @@ def main():
             faulthandler.cancel_dump_traceback_later()
         res["job"] = job.get("id")
         out.write(json.dumps(res, default=_default) + "\n")
+    try:
+        c07 = sys.modules.get("dst.props.c07")
+        if c07 is not None and c07.Verifier.inst is not None:
+            c07.Verifier.inst.close()
+    except Exception:  # noqa: BLE001
+        pass
 
 
 def _default(o):
